@@ -7,7 +7,8 @@ structure V where
   cls : Nat
 
 /-- the harness's deliberately irreflexive, asymmetric equality -/
-def vEq (a b : V) : Bool := a.cls != 0 && (a.cls == b.cls || (decide (a.cls ≥ 100) && a.cls + 1 == b.cls))
+def vEq (a b : V) : Bool :=
+  a.cls != 0 && ((a.cls == b.cls && !(decide (1000 ≤ a.cls) && decide (a.cls < 2000))) || (decide (a.cls ≥ 100) && a.cls + 1 == b.cls))
 
 def isNaN32 (b : Nat) : Bool := (b / 8388608) % 256 == 255 && b % 8388608 != 0
 /-- IEEE-754 binary32 equality on bit patterns -/
